@@ -743,6 +743,210 @@ def statement_check(ctx, label, snap_root, snap_at, parent_name, res, replay):
     return ok
 
 
+# ------------------------------------------------------------------ history sensitivity (statelessness of evaluate)
+TEXTY = {"para", "markdown", "title", "abstract", "description", "intellectualRights", "keyword", "userId", "electronicMailAddress",
+         "givenName", "surName", "entityDescription", "size", "authentication", "recordDelimiter", "numberOfRecords", "section",
+         "samplingDescription"}
+ADDABLE = [lambda rng: E("para", sentence(rng, rng.choice([0, 1, 3, 25]), rng.choice(["single", "mixed"]))),
+           lambda rng: E("markdown", sentence(rng, rng.choice([1, 22]))),
+           lambda rng: E("section", kids=[E("para", sentence(rng, rng.choice([2, 21])))]),
+           lambda rng: E("keyword", rng.choice(VOCAB)),
+           lambda rng: E("keywordSet", kids=[E("keyword", "k") for _ in range(rng.choice([1, 5]))]),
+           lambda rng: E("userId", "0000-0009", [("directory", ORCID)]),
+           lambda rng: E("electronicMailAddress", "x@y.org"),
+           lambda rng: E("givenName", "Eve"),
+           lambda rng: E("abstract", kids=[E("para", sentence(rng, rng.choice([5, 30])))]),
+           lambda rng: E("coverage", kids=[E("temporalCoverage", kids=[E("singleDateTime", kids=[E("calendarDate", "2021")])])]),
+           lambda rng: E("entityDescription", "described"),
+           lambda rng: E("numberOfRecords", "7"),
+           lambda rng: E("description", kids=[E("para", "some text")])]
+
+
+def snap_at(root, path):
+    n = root
+    for i in path:
+        n = n["kids"][i]
+    return n
+
+
+def node_at(root, path):
+    n = root
+    for i in path:
+        n = n.children[i]
+    return n
+
+
+def paths(t, here=()):
+    yield list(here), t
+    for i, k in enumerate(t["kids"]):
+        yield from paths(k, here + (i,))
+
+
+def targeted_edits(snap):
+    """Deterministic edits aimed at every text-bearing node: make it long, make it empty, remove it."""
+    out = []
+    for pth, n in paths(snap):
+        if n["name"] in ("para", "markdown", "title", "keyword", "userId", "abstract", "description", "intellectualRights") and pth:
+            out.append(("content", pth, "one two three four five six seven eight nine ten eleven twelve thirteen fourteen fifteen "
+                                        "sixteen seventeen eighteen nineteen twenty twentyone twentytwo"))
+            out.append(("content", pth, None))
+            out.append(("remove", pth))
+    return out
+
+
+def random_edit(rng, snap, counter):
+    allp = list(paths(snap))
+    texty = [(p_, n) for p_, n in allp if n["name"] in TEXTY]
+    pth, n = rng.choice(texty if texty and rng.random() < 0.7 else allp)
+    op = rng.choice(["content", "content", "remove", "add", "add", "attr", "rename"])
+    if op == "content":
+        return ("content", pth, rng.choice([None, "", sentence(rng, rng.choice([1, 4, 5, 19, 20, 25]), rng.choice(["single", "mixed", "nbsp"]))]))
+    if op == "remove" and pth:
+        return ("remove", pth)
+    if op == "attr":
+        return ("attr", pth, "directory", rng.choice([ORCID, "https://example.org"]))
+    if op == "rename" and pth:
+        return ("rename", pth, rng.choice(KNOWN_RENAMES))
+    sub = rng.choice(ADDABLE)(rng)
+    assign_ids(sub, counter, tag="h")
+    return ("add", pth, rng.randint(0, len(n["kids"])), sub)
+
+
+def apply_edit_snap(snap, e):
+    if e[0] == "content":
+        snap_at(snap, e[1])["content"] = e[2]
+    elif e[0] == "remove":
+        del snap_at(snap, e[1][:-1])["kids"][e[1][-1]]
+    elif e[0] == "attr":
+        n = snap_at(snap, e[1])
+        n["attrs"] = [a for a in n["attrs"] if a[0] != e[2]] + [[e[2], e[3]]] if e[2] not in [a[0] for a in n["attrs"]] else \
+            [[a[0], e[3] if a[0] == e[2] else a[1]] for a in n["attrs"]]
+    elif e[0] == "rename":
+        snap_at(snap, e[1])["name"] = e[2]
+    elif e[0] == "add":
+        snap_at(snap, e[1])["kids"].insert(e[2], copy.deepcopy(e[3]))
+
+
+def apply_edit_impl(root, e):
+    """The same edit through the public Node API, on the live objects."""
+    if e[0] == "content":
+        node_at(root, e[1]).content = e[2]
+    elif e[0] == "remove":
+        parent = node_at(root, e[1][:-1])
+        parent.remove_child(parent.children[e[1][-1]])
+    elif e[0] == "attr":
+        node_at(root, e[1]).add_attribute(e[2], e[3])
+    elif e[0] == "rename":
+        node_at(root, e[1]).name = e[2]
+    elif e[0] == "add":
+        node_at(root, e[1]).add_child(build_impl(e[3]), e[2])
+
+
+def observe(at, warnings):
+    """evaluate.tree appending to a REUSED list + evaluate.node on every node. Returns (crash, new (code, id) list, node results)."""
+    from metapype.eml import evaluate
+    n0 = len(warnings)
+    head = list(warnings)
+    crash = None
+    try:
+        evaluate.tree(at, warnings)
+    except Exception as e:
+        crash = type(e).__name__
+    prefix_ok = len(warnings) >= n0 and all(a is b for a, b in zip(head, warnings))
+    new = []
+    for w in warnings[n0:]:
+        try:
+            new.append((w[0].name, w[2].id))
+        except Exception:
+            new.append(("MALFORMED", repr(w)[:60]))
+    nodes = []
+
+    def walk(n):
+        try:
+            ev = evaluate.node(n)
+            nodes.append(None if ev is None else [w[0].name for w in ev])
+        except Exception as e:
+            nodes.append("CRASH:" + type(e).__name__)
+        for c in n.children:
+            walk(c)
+    walk(at)
+    return crash, new, nodes, prefix_ok
+
+
+def history_run(snap0, edits):
+    """Evaluate, edit in place, evaluate again ... on the SAME node objects with ONE warnings list; after every step also
+    evaluate a freshly built identical tree. Returns list of steps: (edit, same-object observation, fresh observation, snapshot)."""
+    from metapype.model.node import Node
+    snap = copy.deepcopy(snap0)
+    root = build_impl(snap)
+    warnings = [Sentinel()]
+    steps = []
+    for e in [None] + list(edits):
+        if e is not None:
+            apply_edit_snap(snap, e)
+            apply_edit_impl(root, e)
+        same = observe(root, warnings)
+        fresh_root = build_impl(copy.deepcopy(snap))
+        fresh = observe(fresh_root, [Sentinel()])
+        steps.append((e, same, fresh, copy.deepcopy(snap)))
+    Node.store.clear()
+    return steps
+
+
+def history_check(ctx, label, snap0, edits):
+    """True when every step of the history agrees with a fresh evaluation and with the statement oracle."""
+    ok = True
+    for k, (e, same, fresh, snap) in enumerate(history_run(snap0, edits)):
+        replay = {"kind": "impl-vs-statement", "history": True, "label": label, "tree": snap0, "edits": [list(x) for x in edits[:k]] if k else [],
+                  "step": k, "observed_same_objects": {"crash": same[0], "new": same[1]},
+                  "observed_fresh_tree": {"crash": fresh[0], "new": fresh[1]}}
+        ctx.case(("h", label, k, repr(e)), k > 0)
+        ctx.count("history:steps")
+        if not same[3]:
+            ctx.fail("C19:prefix", "entries of a reused warnings list were disturbed by a later call", replay)
+            ok = False
+        if same[:3] != fresh[:3]:
+            what = ("after an in-place edit the evaluation of the same node objects differs from the evaluation of a freshly built identical tree"
+                    if k else "two evaluations of identical trees in one process differ")
+            ctx.fail("C19:history:" + ("tree" if same[1] != fresh[1] or same[0] != fresh[0] else "node"), what + f" (edit {e!r})", replay)
+            ok = False
+        # the statement itself on the same-object result
+        res = {"crash": same[0], "new": same[1], "shape_errors": [], "prefix_ok": True, "nodes": same[2]}
+        if not statement_check(ctx, label + ":history", snap, snap, None, res, replay):
+            ok = False
+        if not ok:
+            break
+    return ok
+
+
+def history_phase(ctx, all_cases):
+    rng = ctx.rng
+    thorough = ctx.tier == "thorough"
+    bases = [(label, root) for label, root, path in all_cases if not path and sum(1 for _ in preorder(root)) <= 150]
+    n_ok = 0
+    counter = [0]
+    # (1) targeted: every text-bearing node of the threshold cases made long / empty / removed, one edit per history
+    for label, root in bases:
+        if label.split(":")[0] not in ("abstract", "rights", "title", "keywords", "description", "party", "methods", "dataset"):
+            continue
+        edits = targeted_edits(root)
+        if not thorough and len(edits) > 6:
+            edits = rng.sample(edits, 6)
+        for e in edits:
+            n_ok += history_check(ctx, label, root, [e])
+    # (2) random histories of three edits on a sample of all cases
+    sample = bases if thorough else rng.sample(bases, min(len(bases), 120))
+    for label, root in sample:
+        snap = copy.deepcopy(root)
+        edits = []
+        for _ in range(3):
+            e = random_edit(rng, snap, counter)
+            apply_edit_snap(snap, e)
+            edits.append(e)
+        n_ok += history_check(ctx, label, root, edits)
+    ctx.count("history:histories_agreeing", n_ok)
+
+
 def run(ctx):
     built = ctx.build(extra_targets=["theories/Model/EvaluateRun.v"])
     from metapype.model import metapype_io
@@ -810,6 +1014,7 @@ def run(ctx):
     ctx.count("trees_passing_validation", n_valid)
     ctx.count("trees_satisfying_shape_ok", n_shape)
     ctx.count("statement_holds", n_stmt_ok)
+    history_phase(ctx, all_cases)
     t_impl = time.time()
     # (B) in Coq
     sizes = [len(c) + len(w) for c, w in zip(cases, wants)]
@@ -868,7 +1073,10 @@ DISPATCHED = set(PARTIES) | {"dataset", "dataTable", "description", "individualN
 def replay(ctx, data):
     r = data.get("replay", {})
     print(data.get("what"))
-    if "tree" in r and "path" in r:
+    if r.get("history"):
+        ok = history_check(ctx, r.get("label", "replay"), r["tree"], [tuple(e) for e in r.get("edits", [])] )
+        print("history agrees with a fresh evaluation now" if ok else "still fails")
+    elif "tree" in r and "path" in r:
         root, path = r["tree"], r["path"]
         res, snap_at, parent_name = impl_run(root, path)
         print("observed now:", res["crash"], res["new"])
